@@ -8,5 +8,5 @@ Extraction "extracted/c04/model.ml" Mirror.empty_parent Mirror.write Mirror.writ
   Mirror.view_file Mirror.disp_of Mirror.disp_lab Mirror.sound_kinds Mirror.unsound_kinds Mirror.reserved_names
   Mirror.shadowed Mirror.positions_without_block Mirror.parents_without_block Mirror.positions_with_children Mirror.all_positions
   Mirror.candidate_kinds Mirror.delete_table_ok Mirror.write_table_ok Mirror.addr_tails_ok Mirror.bad_dblocks
-  Mirror.bad_wrows Mirror.bad_nrows Mirror.bad_rrows Gen_C04.reinit_rows Mirror.cgns_sorted Mirror.sorting_ok Gen_C04.sort_calls Gen_C04.sort_comparator Gen_C04.sort_names_callers Gen_C04.ctx_writers Gen_C04.delete_table Gen_C04.not_deletable Gen_C04.free_sigs Gen_C04.preamble Gen_C04.dispatch_tail
+  Mirror.bad_wrows Mirror.bad_nrows Mirror.bad_rrows Mirror.bad_singles Mirror.user_named_singles Mirror.shadowed_singles Mirror.unjustified_names Gen_C04.child_names Gen_C04.reader_name_tests Gen_C04.reinit_rows Mirror.cgns_sorted Mirror.sorting_ok Gen_C04.sort_calls Gen_C04.sort_comparator Gen_C04.sort_names_callers Gen_C04.ctx_writers Gen_C04.delete_table Gen_C04.not_deletable Gen_C04.free_sigs Gen_C04.preamble Gen_C04.dispatch_tail
   Gen_C04.macro_shift Gen_C04.macro_child Gen_C04.write_table Gen_C04.addr_tails Gen_C11.goto_table Gen_C11.structs.
